@@ -2493,6 +2493,32 @@ class Canon:
             visit_ListComp = visit_SetComp = visit_DictComp = visit_GeneratorExp = _comp
         return [ast.fix_missing_locations(K().visit(s_)) for s_ in stmts]
 
+    def match_object_indexing(self, stmts):
+        """m[k] on a local bound (once) to the result of .match / .fullmatch / .search is m.group(k), i.e. m.groups()[k - 1] for k >= 1"""
+        defs, cnt = {}, {}
+        for s_ in stmts:
+            for n in ast.walk(s_):
+                if isinstance(n, ast.Name) and isinstance(n.ctx, (ast.Store, ast.Del)):
+                    cnt[n.id] = cnt.get(n.id, 0) + 1
+                if isinstance(n, (ast.Assign, ast.NamedExpr)):
+                    tg = n.targets[0] if isinstance(n, ast.Assign) and len(n.targets) == 1 else (n.target if isinstance(n, ast.NamedExpr) else None)
+                    if isinstance(tg, ast.Name) and isinstance(n.value, ast.Call) and (
+                            (isinstance(n.value.func, ast.Attribute) and n.value.func.attr in ("match", "fullmatch", "search"))):
+                        defs[tg.id] = n.value
+        ms = {k for k in defs if cnt.get(k) == 1}
+        if not ms:
+            return stmts
+
+        class G(ast.NodeTransformer):
+            def visit_Subscript(self, node):
+                self.generic_visit(node)
+                if isinstance(node.value, ast.Name) and node.value.id in ms and isinstance(node.ctx, ast.Load) and isinstance(node.slice, ast.Constant) \
+                        and type(node.slice.value) is int and node.slice.value >= 1:
+                    return ast.copy_location(ast.Subscript(value=ast.Call(func=ast.Attribute(value=node.value, attr="groups", ctx=ast.Load()), args=[], keywords=[]),
+                                                           slice=ast.Constant(node.slice.value - 1), ctx=ast.Load()), node)
+                return node
+        return [ast.fix_missing_locations(G().visit(s_)) for s_ in stmts]
+
     def mapping_mixins(self, stmts, module, cls):
         """inside a class that derives from (Mutable)Mapping without defining `get`, whose __getitem__ is `return self.A[key]`:
         self.get(k[, d]) is the mixin `try: return self[k] except KeyError: return d`, i.e. self.A.get(k[, d])"""
@@ -3150,6 +3176,7 @@ class Canon:
         b = lift_walrus(b)
         b = norm.first_match_to_next(b)
         b = norm.try_lookup_to_get(b)
+        b = self.match_object_indexing(b)
         b = self.mapping_mixins(b, module, cls)
         b = norm.lower_reduce(b)
         b = self.explicit_base_init(b, module, cls)
